@@ -1147,13 +1147,21 @@ where
         // - `probability <= 1 << PRECISION` and `remainder < probability`.
         // Thus, `remainders * proability + remainder < (remainders + 1) * probability`
         // which is `<= (1 << (State::BITS - PRECISION)) << PRECISION = 1 << State::BITS`.
-        self.heads.remainders =
+        let remainders =
             self.heads.remainders * probability.get().into().into() + remainder.into().into();
 
-        if self.heads.remainders >= State::one() << (State::BITS - PRECISION) {
-            // The invariant on `self.heads.remainders` (see its doc comment) is violated and must
-            // be restored.
-            self.flush_remainders_head()?;
+        if remainders >= State::one() << (State::BITS - PRECISION) {
+            // The invariant on `self.heads.remainders` (see its doc comment) would be violated, so
+            // we have to flush a word. We update `self.heads.remainders` only once the backend has
+            // accepted the word: if the write fails then the head keeps its old value, which
+            // satisfies the invariant (otherwise, the multiplication above could overflow on the
+            // next call).
+            self.remainders
+                .write(remainders.as_())
+                .map_err(|err| CoderError::Backend(BackendError::Remainders(err)))?;
+            self.heads.remainders = remainders >> Word::BITS;
+        } else {
+            self.heads.remainders = remainders;
         }
 
         Ok(symbol)
